@@ -1,5 +1,5 @@
 import FeatherModel.Base.Driver
-import FeatherModel.Model.Bridge
+import FeatherModel.Model.BridgeMap
 
 open Driver Sexp Codec Bridge
 
@@ -12,6 +12,7 @@ def mrefFrom : Sexp → Option MRef
 
 def insnFrom : Sexp → Option Insn
   | atom "n" => some .other
+  | atom "d" => some .other
   | list [atom k, c, n, d] =>
     if k == "v" || k == "s" || k == "t" || k == "i" then do pure (.invoke (← toJStr? c) (← toJStr? n) (← toJStr? d))
     else none
@@ -31,25 +32,6 @@ def classDescFrom : Sexp → Option ClassDesc
 def jarFrom (s : Sexp) : Option JarDesc := toListOf? classDescFrom s
 
 def pairsTo (ps : List (MRef × MRef)) : Sexp := ofList (fun p => list [mrefTo p.1, mrefTo p.2]) ps
-
-structure Tabs where
-  inter : AList MRef (Option MRef)
-  named : AList MRef (Option JStr)
-
-def tabsFrom : Sexp → Option (Option Tabs)
-  | atom "fail" => some none
-  | list [i, n] => do
-    let i ← toListOf? (fun e => match e with
-      | list [k, v] => do pure (← mrefFrom k, ← toOption? mrefFrom v)
-      | _ => none) i
-    let n ← toListOf? (fun e => match e with
-      | list [k, v] => do pure (← mrefFrom k, ← toOption? toJStr? v)
-      | _ => none) n
-    pure (some { inter := i, named := n })
-  | _ => none
-
-def Tabs.interOf (t : Tabs) (r : MRef) : Option MRef := (AList.lookup r t.inter).join
-def Tabs.namedOf (t : Tabs) (r : MRef) : Option JStr := (AList.lookup r t.named).join
 
 /-! ## run-time guards: both sides skip hierarchies on which the Rust code does not terminate -/
 
@@ -135,6 +117,21 @@ def oracleOnlyDelegate (namedOf : MRef → Option JStr) (ps : List (MRef × MRef
   | some t => .ok (list [tag "fail", tag t])
   | none => .ok (tag "pass")
 
+/-! ## spec-side evaluation of the tie-break, for `oracle-higher` -/
+
+def wantS2b (desc : JStr → List JStr) : List (MRef × MRef) → AList MRef MRef → AList MRef MRef
+  | [], acc => acc
+  | (b, s) :: rest, acc =>
+    match AList.lookup s acc with
+    | none => wantS2b desc rest (acc ++ [(s, b)])
+    | some cur => wantS2b desc rest (if (desc b.cls).contains cur.cls then upsert s b acc else acc)
+
+def oracleHigher (idx : Index) (st : SelState) : Ans :=
+  let desc := fun c => (descendants idx FUEL c).getD []
+  let want := wantS2b desc st.1 []
+  if want.map Prod.fst != st.2.map Prod.fst then .ok (list [tag "fail", tag "keys"])
+  else if want != st.2 then .ok (list [tag "fail", tag "higher"]) else .ok (tag "pass")
+
 /-! ## ops -/
 
 def withSel (jar : JarDesc) (k : Index → SelState → Ans) : Ans :=
@@ -144,12 +141,22 @@ def withSel (jar : JarDesc) (k : Index → SelState → Ans) : Ans :=
   | none => .skip "fuel"
   | some st => k idx st
 
-def tablesCover (t : Tabs) (pairs : List (MRef × MRef)) : Bool :=
-  pairs.all fun p =>
-    (AList.lookup p.1 t.inter).isSome && (AList.lookup p.2 t.inter).isSome &&
-    match t.interOf p.1 with
-    | some b' => (AList.lookup b' t.named).isSome
+/-- the provider handed to the named remapper is acyclic as well (or is never built) -/
+def remappedAcyclic (jars : List JarDesc) (cal : Mappings) : Bool :=
+  match cal.getNamespace (jstr "official"), cal.getNamespace (jstr "intermediary") with
+  | some o, some i =>
+    match Remapper.remapperB cal o i with
+    | some rc =>
+      let es := remapProvider (Remapper.classTable rc) jars
+      acyclicGo es.length es
     | none => true
+  | _, _ => true
+
+def withCtx (j libs cal m : Sexp) (k : JarDesc → List JarDesc → Mappings → Mappings → Ans) : Option Ans := do
+  let jar ← jarFrom j; let libs ← toListOf? jarFrom libs; let cal ← mappingsFrom cal; let m ← mappingsFrom m
+  if cal.ns.length != 2 || m.ns.length != 2 then none else
+  pure (if !acyclic (jar :: libs) then .skip "cyclic" else
+    if !remappedAcyclic (jar :: libs) cal then .skip "cyclic" else k jar libs cal m)
 
 def handleC15 (op : String) (args : List Sexp) : Option Ans :=
   match op, args with
@@ -158,39 +165,38 @@ def handleC15 (op : String) (args : List Sexp) : Option Ans :=
     pure (withSel jar fun _ st => .ok (pairsTo st.1))
   | "s2b", [j] => do
     let jar ← jarFrom j
-    pure (withSel jar fun _ st => .ok (pairsTo st.2))
+    pure (withSel jar fun _ st => .ok (pairsTo (st.2.map fun p => (p.1, p.2))))
   | "oracle-bridge-iff", [j] => do
     let jar ← jarFrom j
     pure (withSel jar fun idx st => oracleBridgeIff idx st.1)
-  | "add-specialized", [j, libs, cal, m, tabs] => do
-    let jar ← jarFrom j; let libs ← toListOf? jarFrom libs; let cal ← mappingsFrom cal; let m ← mappingsFrom m
-    let tabs ← tabsFrom tabs
-    pure (if !acyclic (jar :: libs) then .skip "cyclic" else
-      if !nsOK cal.ns m then .err "e" else
-      match tabs with
-      | none => .err "e"
-      | some t =>
-        withSel jar fun _ st =>
-          if !tablesCover t st.1 then .skip "table" else
-          match addSpecialized st.1 t.interOf t.namedOf m with
-          | none => .err "e"
-          | some r => .ok (mappingsTo r))
-  | "oracle-only-delegate", [j, libs, cal, m, tabs] => do
-    let jar ← jarFrom j; let libs ← toListOf? jarFrom libs; let cal ← mappingsFrom cal; let m ← mappingsFrom m
-    let tabs ← tabsFrom tabs
-    pure (if !acyclic (jar :: libs) then .skip "cyclic" else
-      if !nsOK cal.ns m then .ok (tag "out-of-domain") else
-      match tabs with
+  | "oracle-higher", [j] => do
+    let jar ← jarFrom j
+    pure (withSel jar fun idx st => oracleHigher idx st)
+  | "add-specialized", [j, libs, cal, m] =>
+    withCtx j libs cal m fun jar libs cal m =>
+      match addFull jar libs cal m FUEL with
+      | none => .skip "fuel"
+      | some none => .err "e"
+      | some (some r) => .ok (mappingsTo r)
+  | "oracle-only-delegate", [j, libs, cal, m] =>
+    withCtx j libs cal m fun jar libs cal m =>
+      match setup jar libs cal m with
       | none => .ok (tag "out-of-domain")
-      | some t =>
-        withSel jar fun _ st =>
-          if !tablesCover t st.1 then .skip "table" else
-          match remapPairs t.interOf st.1 [] with
+      | some su =>
+        match select (ofJar jar) FUEL with
+        | none => .skip "fuel"
+        | some st =>
+          let interC := mapRef su.calamus su.supC FUEL
+          let namedN := mapRefName su.named su.supN FUEL
+          if !(st.1.all fun p => (interC p.1).isSome && (interC p.2).isSome) then .skip "fuel" else
+          match remapPairs (fun r => (interC r).join) st.1 [] with
           | none => .ok (tag "out-of-domain")
           | some ps =>
-            match applyPairs t.namedOf ps m with
+            if !(ps.all fun p => (namedN p.1).isSome) then .skip "fuel" else
+            let namedOf := fun r => (namedN r).join
+            match applyPairs namedOf ps m with
             | none => .ok (tag "out-of-domain")
-            | some r => oracleOnlyDelegate t.namedOf ps m r)
+            | some r => oracleOnlyDelegate namedOf ps m r
   | _, _ => none
 
 def main : IO Unit := Driver.run handleC15
